@@ -54,3 +54,23 @@ void setup_case(const uint32_t *mat, int n) {
   }
   PROP(same, "C14 the evaluator's working sets are recomputed from the position alone (no value survives from an earlier evaluation)");
 }
+
+/* term-level colour symmetry on pawn structures (cheap: no sliders): outposts and the pawn term for White on P equal those
+   for Black on the mirror P*, and vice versa */
+uint64_t _ZN6engine12get_outpostsILNS_5ColorE0EEEmRKNS_8PositionE(Pos *);
+uint64_t _ZN6engine12get_outpostsILNS_5ColorE1EEEmRKNS_8PositionE(Pos *);
+static uint64_t flipv(uint64_t b) { uint64_t r = 0; for (int k = 0; k < 8; k++) r |= ((b >> (8 * k)) & 0xffULL) << (8 * (7 - k)); return r; }
+uint64_t ce_o1, ce_o2;
+void term_case(const uint32_t *mat, int n) {
+  uint32_t side = nondet_u32() & 1;
+  pos_build(mat, n, side, PB_NO_EP | PB_NO_CASTLING);
+  pos_mirror();
+  uint64_t ow = _ZN6engine12get_outpostsILNS_5ColorE0EEEmRKNS_8PositionE(&P), obm = _ZN6engine12get_outpostsILNS_5ColorE1EEEmRKNS_8PositionE(&PM);
+  uint64_t ob = _ZN6engine12get_outpostsILNS_5ColorE1EEEmRKNS_8PositionE(&P), owm = _ZN6engine12get_outpostsILNS_5ColorE0EEEmRKNS_8PositionE(&PM);
+  ce_o1 = ob; ce_o2 = flipv(owm);
+  PROP(ow == flipv(obm) && ob == flipv(owm), "C13 outpost squares of one colour are the mirror image of the other colour's outposts in the mirrored position");
+  static Scorer A, B; scratch(&A); scratch(&B);
+  PAWNS_T pw = PAWNS_W(&A, &P), pbm = PAWNS_B(&B, &PM), pb = PAWNS_B(&A, &P), pwm = PAWNS_W(&B, &PM);
+  ce_v1 = (int64_t)pb.f0; ce_v2 = (int64_t)pwm.f0;
+  PROP(pw.f0 == pbm.f0 && pw.f1 == pbm.f1 && pb.f0 == pwm.f0 && pb.f1 == pwm.f1, "C13 the pawn-structure term is colour-symmetric");
+}
